@@ -168,6 +168,15 @@ func dump(n ast.Node) string {
 		case parser.MINUS, parser.MUL, parser.POW:
 			o = "BArith"
 		}
+		if sl, ok := v.RHS.(*ast.StringLit); ok && (v.Op == parser.MATCH || v.Op == parser.NOT_MATCH) {
+			// e =~ "text": the checker converts a right operand that is not a Pattern
+			// into a PatternExpr and checks it like one (checker.go, BinaryExpr
+			// MATCH/NOT_MATCH, "Implicit conversion of the RHS"); the pattern
+			// evaluator appends a StringLit's text like a PatternLit's.  Type
+			// inference is not modelled, so the translation does this step for the
+			// one case that needs no types: a literal string.
+			return "(NBin " + o + " " + dump(v.LHS) + " (NPattern (NPatLit " + vlib.Bytes(sl.Text) + ")))"
+		}
 		return "(NBin " + o + " " + dump(v.LHS) + " " + dump(v.RHS) + ")"
 	case *ast.IntLit:
 		return "(NIntLit " + vlib.Z(v.I) + ")"
@@ -523,6 +532,11 @@ func defectsFor(r *vlib.Rand, p *program, s site, k int) []defect {
 	out = append(out, defect{16, "over-long regex as a condition", "/" + long + "/ {\n  " + n.c + "++\n}", "statement", nil, 0})
 	half := strings.Repeat("b", maxRe/2+1)
 	out = append(out, defect{16, "over-long regex built by concatenation", "const HALFL" + u + " /" + half + "/\n/" + half + "/ + HALFL" + u + " {\n  " + n.c + "++\n}", "statement", []string{half + half}, 0})
+	// a STRING used as a regular expression (right operand of =~ / !~: the checker
+	// wraps it in a pattern expression itself) is a regular expression too
+	out = append(out, defect{16, "over-long string literal as the pattern of a match expression", "\"abc\" =~ \"" + long + "\" {\n  " + n.c + "++\n}", "statement", nil, 0})
+	out = append(out, defect{16, "over-long string literal as the pattern of a negated match", "\"abc\" !~ \"" + strings.Repeat("c", maxRe+1) + "\" {\n  " + n.c + "++\n}", "statement", nil, 0})
+	out = append(out, defect{16, "26-byte string pattern over a configured limit of 24 bytes", "\"abc\" =~ \"" + strings.Repeat("y", 26) + "\" {\n  " + n.c + "++\n}", "statement-small-limit", nil, 24})
 	// the limit is in BYTES: multi-byte patterns, and a configured small limit
 	out = append(out, defect{16, "over-long regex of two-byte characters (1200 bytes, 600 characters)", "/" + strings.Repeat("\u00e9", 600) + "/ {\n  " + n.c + "++\n}", "statement-multibyte", nil, 0})
 	out = append(out, defect{16, "30-byte, 10-character regex over a configured limit of 24 bytes", "/\u65e5\u672c\u8a9e\u306e\u30ed\u30b0\u884c\u3067\u3059\u3002/ {\n  " + n.c + "++\n}", "statement-multibyte", nil, 24})
